@@ -55,6 +55,9 @@ func ghostLayout(t types.Type) ([]string, bool) {
 	if isNamed(t, "sync", "Mutex") || isNamed(t, "sync", "RWMutex") {
 		return []string{"bool"}, true // held
 	}
+	if isNamed(t, "math/big", "Int") {
+		return []string{"int"}, true // the mathematical value
+	}
 	return nil, false
 }
 
